@@ -26,7 +26,7 @@ for _i, _nm in enumerate(NAMES[:3]):
     except KeyError:
         _RGS.append(ReferenceGenome(_name, ['1'], {'1': 10}))
 
-PRIMS = [T.tint32, T.tint64, T.tfloat32, T.tfloat64, T.tstr, T.tbool, T.tcall] + [T.tlocus(r) for r in _RGS]
+PRIMS = [T.tint32, T.tstr, T.tlocus(_RGS[0]), T.tfloat64, T.tcall, T.tint64, T.tfloat32, T.tbool] + [T.tlocus(r) for r in _RGS[1:]]
 NP = len(PRIMS)
 NN = len(NAMES)
 NCON = 9
@@ -95,42 +95,35 @@ def property_holds(a0, a1, b1, n1, a2, b2, n2, n0):
 
 
 TEMPLATE = '''
-def check_{TAG}(a1: int, b1: int, n1: int, {EXTRA_ARGS}n0: int) -> bool:
+def check_{TAG}(a1: int, b1: int, n1: int) -> bool:
     """
-    pre: 0 <= a1 < {NCON} and 0 <= b1 < {NP} and 0 <= n1 < {NN} and 0 <= n0 < {NN0}
-    pre: {EXTRA_PRE}
+    pre: 0 <= a1 < {NCON} and 0 <= b1 < {NPB} and 0 <= n1 < {NN}
     post: _
     """
-    return property_holds({A0}, a1, b1, n1, {A2}, {B2}, {N2}, n0)
+    return property_holds({A0}, a1, b1, n1, {A2}, {B2}, {N2}, {N0})
 
 
-def reach_{TAG}(a1: int, b1: int, n1: int, {EXTRA_ARGS}n0: int) -> bool:
+def reach_{TAG}(a1: int, b1: int, n1: int) -> bool:
     """
-    pre: 0 <= a1 < {NCON} and 0 <= b1 < {NP} and 0 <= n1 < {NN} and 0 <= n0 < {NN0}
-    pre: {EXTRA_PRE}
+    pre: 0 <= a1 < {NCON} and 0 <= b1 < {NPB} and 0 <= n1 < {NN}
     post: _
     """
     # reachability twin: must be REFUTED (some choice builds a type whose printed form contains a backtick)
-    return '`' not in str(build({A0}, a1, b1, n1, {A2}, {B2}, {N2}, n0))
+    return '`' not in str(build({A0}, a1, b1, n1, {A2}, {B2}, {N2}, {N0}))
 '''
 
 
 def source(tier):
-    """one condition per top-level constructor; quick: second child derived from the first,
-    thorough: second child's constructor symbolic as well"""
+    """one CrossHair condition per top-level constructor (struct: one per top-level field name); the first child
+    is symbolic (constructor a1, primitive b1, field name n1), the second child is derived from it"""
     out = ['from harness.C31_struct import build, property_holds\n']
     tags = []
+    npb = min(NP, 5) if tier == 'quick' else NP
     for a0 in range(NCON):
-        nn0 = NN if a0 == 7 else 1
-        if tier == 'quick' or a0 not in (3, 7, 8):
-            out.append(TEMPLATE.format(TAG=f'{CON[a0]}', NCON=NCON, NP=NP, NN=NN, NN0=nn0, A0=a0, EXTRA_ARGS='',
-                                       EXTRA_PRE='True', A2=f'(a1 + 4) % {NCON}', B2=f'(b1 + 1) % {NP}',
-                                       N2=f'(n1 + 3) % {NN}'))
-            tags.append(CON[a0])
-        else:
-            for a2 in range(NCON):
-                out.append(TEMPLATE.format(TAG=f'{CON[a0]}_{CON[a2]}', NCON=NCON, NP=NP, NN=NN, NN0=nn0, A0=a0,
-                                           EXTRA_ARGS='b2: int, ', EXTRA_PRE=f'0 <= b2 < {NP}', A2=a2, B2='b2',
-                                           N2=f'(n1 + 3) % {NN}'))
-                tags.append(f'{CON[a0]}_{CON[a2]}')
+        n0s = [0] if a0 != 7 else (list(range(min(NN, 3))) if tier == 'quick' else list(range(NN)))
+        for n0 in n0s:
+            tag = CON[a0] if a0 != 7 else f'struct_n{n0}'
+            out.append(TEMPLATE.format(TAG=tag, NCON=NCON, NPB=npb, NN=NN, A0=a0, A2=f'(a1 + 4) % {NCON}',
+                                       B2=f'(b1 + 1) % {NP}', N2=f'(n1 + 3) % {NN}', N0=n0))
+            tags.append(tag)
     return '\n'.join(out), tags
